@@ -34,6 +34,10 @@ def cases(tier, seed):
         if path == 'cu' and d != 3:
             continue
         out.append({'kind': 'qnsolver', 'd': d, 'nc': 5, 'path': path, 'nq': nq, 'adiabatic': adiab, 'chi': chi, 'B': 1.0 if (d + nq) % 2 else 1.3, 'cost': 200})
+    # the documented profile arguments of the subclass (n0, Te, and n0derivNormalised or n0deriv) with non-default profiles
+    for d, path, nq, (adiab, chi), prof in ((3, 'cu', 4, (True, 1), 'normalised'), (3, 'general', 5, (True, 0), 'deriv'), (2, 'general', 4, (False, None), 'deriv'),
+                                            (3, 'cu', 5, (False, None), 'normalised'), (3, 'cu', 4, (True, 0), 'both')):
+        out.append({'kind': 'qnsolver', 'd': d, 'nc': 5, 'path': path, 'nq': nq, 'adiabatic': adiab, 'chi': chi, 'B': 1.3, 'prof': prof, 'cost': 200})
     return out
 
 
@@ -249,13 +253,27 @@ def _qnsolver(case):
     Te = lambda r: init.Te(r, c.CTe, c.kTe, c.deltaRTe, c.rp)                      # noqa
     g = lambda r: init.n0deriv_normalised(r, c.kN0, c.rp, c.deltaRN0)              # noqa
     Bf = case['B']
+    prof = case.get('prof', 'default')
+    pkw = {}
+    if prof != 'default':
+        n0 = lambda r: 1.2 + 0.3 * np.cos(0.2 * r)                                  # noqa
+        dn0 = lambda r: -0.06 * np.sin(0.2 * r)                                     # noqa
+        Te = lambda r: 0.8 + 0.02 * r                                               # noqa
+        g = lambda r: dn0(r) / n0(r)                                                # noqa
+        pkw = {'n0': n0, 'Te': Te}
+        if prof in ('normalised', 'both'):
+            pkw['n0derivNormalised'] = g
+        if prof == 'deriv':
+            pkw['n0deriv'] = dn0
+        if prof == 'both':
+            pkw['n0deriv'] = lambda r: 0.0 * r + 5.0       # documented: ignored when n0derivNormalised is given
     M0 = dict(A=lambda r: -1.0, B=lambda r: -(1 / r + g(r)), C=lambda r: 0.0, D=lambda r: -1 / r ** 2, E=lambda r: Bf * Bf / n0(r))
     MC = dict(M0, C=(lambda r: Bf * Bf / Te(r)) if adiab else (lambda r: 0.0))
     K0n, KD, MM = _dense_reference(Sg, breaks, qdeg, M0)
     K0c, _, _ = _dense_reference(Sg, breaks, qdeg, MC)
     mv = np.fft.fftfreq(nq, 1 / nq)
     rowsR = np.array([Sg.row(x, 0) for x in rpts])
-    tag = 'QuasiNeutralitySolver degree=%d path=%s ntheta=%d adiabatic=%s chi=%r B=%g' % (d, case['path'], nq, adiab, chi, case['B'])
+    tag = 'QuasiNeutralitySolver degree=%d path=%s ntheta=%d adiabatic=%s chi=%r B=%g profiles=%s' % (d, case['path'], nq, adiab, chi, case['B'], prof)
     evals = 0
     worst = 0.0
     for p in (1, 2, 3):
@@ -273,6 +291,7 @@ def _qnsolver(case):
             phi = Grid(eta, [None] * 3, h, 'mode_solve', comm, dtype=np.complex128)
             rho = Grid(eta, [None] * 3, h, 'mode_solve', comm, dtype=np.complex128)
             kw = {'chi': chi} if adiab else {}
+            kw.update(pkw)
             qn = QuasiNeutralitySolver(eta, qdeg, rs, c, adiabaticElectrons=adiab, B=Bf, **kw)
             l = rho.getLayout('mode_solve')
             sl = tuple(slice(int(x), int(y)) for x, y in zip(l.starts, l.ends))
